@@ -475,6 +475,7 @@ fn replay_probe(_v: &Value) -> Result<Outcome, String> {
 
 pub fn def() -> PropertyDef {
     PropertyDef {
+        fuzz_targets: &[],
         id: "C17",
         level: "exploration",
         rule: "pools of generated histories are run (i) in a second instance, (ii) on each of 9 sink types (shared Vec, &mut Vec, Cursor, File, BufWriter<File>, \
